@@ -67,6 +67,8 @@ def observe(state: Obj, pairs: list, result: object) -> dict:
         "frames": len(state.rule_stack.__dict__.get("items", [])), "atomic": state.atomic_depth.__dict__.get("_value"), "negdepth": state.neg_pred_depth,
         "tags": list(state.tag_stack), "open_checkpoints": len(state.__dict__.get("_pos_history", [])),
         "hide": bool(state.__dict__.get("hide_pairs", False)),
+        # the furthest-failure record: where, and under which rule names (label texts are not compared)
+        "furthest": (state.__dict__.get("furthest_pos"), tuple(sorted(map(str, state.__dict__.get("furthest_expected") or {}))), tuple(sorted(map(str, state.__dict__.get("furthest_unexpected") or {})))),
     }
 
 
@@ -84,6 +86,7 @@ class Table:
         self.oracles[lid] = o
         node = Obj(("OracleExpr", "Expression"), tag=None)
         node.__dict__["parse"] = o
+        node.__dict__["__str__"] = lambda: f"<{lid}>"
         cm = self.cm
         node.__dict__["generate"] = lambda gen, mv, pv: cm.call(gen, "writeln", f"{mv} = LEAF_{lid}(state, {pv})")
         return node
@@ -105,6 +108,10 @@ class Table:
             return cm.new("Repeat", self.build(b[1]))
         if kind == "opt":
             return cm.new("Optional", self.build(b[1]))
+        if kind == "neg":
+            return cm.new("NegativePredicate", self.build(b[1]))
+        if kind == "pos":
+            return cm.new("PositivePredicate", self.build(b[1]))
         raise AnalysisError(f"gensem: unknown body kind {kind}")
 
 
@@ -241,6 +248,15 @@ def scenarios(masks: dict, thorough: bool) -> list[tuple[str, dict, str, list[di
             for tmod in (S, 0):
                 spec = {tname2: (tmod, tbody), **extra, "r": (0, ("seq", ("leaf", "a"), ("leaf", "b")))}
                 out.append((f"{tname2} = {sym[tmod]}{{ {body_name} }} in a table without atomic rules; r = {{ a ~ b }}", spec, "r", [{"w": ["S1", "S1", "Fc", "Fc", "Fc"], "v": ["S1", "S1", "Fc", "Fc"]}]))
+    # predicates: a negative predicate whose operand matches records an *unexpected* failure under an explicit rule
+    # name - the operand's, when the operand is a rule reference - and every name in the record is a rule of the table
+    for oname, operand, extra in (("x", ("ref", "x"), {"x": (0, ("leaf", "a"))}), ("x (silent)", ("ref", "x"), {"x": (S, ("leaf", "a"))}), ("(x)", ("group", ("ref", "x")), {"x": (0, ("leaf", "a"))}),
+                                  ("a", ("leaf", "a"), {}), ("(a ~ b)", ("group", ("seq", ("leaf", "a"), ("leaf", "b"))), {})):
+        for pk, sign in (("neg", "!"), ("pos", "&")):
+            for m1 in (0, A):
+                for ascript in (["S1"], ["Fc"]):
+                    spec = {**extra, "r": (m1, ("seq", (pk, operand), ("leaf", "c")))}
+                    out.append((f"predicate; r = {sym[m1]}{{ {sign}{oname} ~ c }}, a: {ascript}", spec, "r", [{"a": list(ascript), "b": ["S1"], "c": ["S1"]}]))
     # trivia with a stack effect around repetitions and sequences
     for body_name, body in (("a* ~ b", ("seq", ("rep", ("leaf", "a")), ("leaf", "b"))), ("(a ~ b)*", ("rep", ("seq", ("leaf", "a"), ("leaf", "b")))), ("a? ~ b", ("seq", ("opt", ("leaf", "a")), ("leaf", "b")))):
         for wscript in (["S1p", "Fc", "S1p", "Fc", "S1p", "Fc", "Fc"], ["S1", "Fc", "S1", "Fc", "Fc", "Fc"]):
@@ -250,11 +266,14 @@ def scenarios(masks: dict, thorough: bool) -> list[tuple[str, dict, str, list[di
     return out
 
 
-def check_gen(repo: Repo, where: str, masks: dict, thorough: bool = False) -> tuple[int, list[tuple[str, str]]]:
+def check_gen(repo: Repo, where: str, masks: dict, thorough: bool = False, select=None) -> tuple[int, list[tuple[str, str]]]:  # noqa: ANN001
+    """``select``: a predicate on scenario descriptions (C04 takes the tables with trivia rules, C13 the predicates)."""
     cm = gen_program(repo, where)
     bad: list[tuple[str, str]] = []
     n = 0
     for desc, spec, start, script_list in scenarios(masks, thorough):
+        if select is not None and not select(desc, spec):
+            continue
         try:
             sources = generated_sources(cm, spec)
         except ModelRaise as err:
@@ -275,6 +294,13 @@ def check_gen(repo: Repo, where: str, masks: dict, thorough: bool = False) -> tu
             for side, o in (("Rule.parse", oi), ("the generated code", og)):
                 if o["open_checkpoints"] or (o["frames"], o["atomic"], o["negdepth"], o["hide"]) != (0, 0, 0, False):
                     bad.append((f"{side} leaves checkpoints open or depth counters / pair visibility changed", f"{desc}{tail}: open {o['open_checkpoints']}, frames {o['frames']}, atomic {o['atomic']}, hide_pairs {o['hide']}"))
+            rule_names = set(spec)
+            for side, o in (("Rule.parse", oi), ("the generated code", og)):
+                strangers = [x for x in o["furthest"][1] + o["furthest"][2] if x not in rule_names]
+                if strangers:
+                    bad.append((f"{side} records a failure under a name that is not a rule of the grammar", f"{desc}{tail}: {strangers!r} (expected {list(o['furthest'][1])}, unexpected {list(o['furthest'][2])})"))
+            if oi["furthest"] != og["furthest"]:
+                bad.append(("the siblings record a different furthest failure (position or rule names)", f"{desc}{tail}: Rule.parse {oi['furthest']}, generated code {og['furthest']}"))
             if not oi["result"]:
                 continue
             for key, what in (("pairs", "tree of pairs"), ("pos", "position"), ("stack", "user stack"), ("tags", "tag stack"), ("log", "order of attempts")):
